@@ -1,12 +1,163 @@
-(* C17 — task scopes. Statements only; proofs are in Proofs/ScopeProofs.v. *)
-From Coq Require Import ZArith List.
-From EC Require Import Lib.Obs Model.Scope.
+(* C17 — Task scopes join every task, report a first failure and cancel the rest.
+   Statements only; proofs are in Proofs/ScopeInv.v and Proofs/ScopeProofs.v.
+   [reachable p st]: st is reached from the initial state of program p by an arbitrary
+   sequence of enabled steps, i.e. under every thread schedule; p ranges over all task tables
+   (main/background tasks, nested scopes, tasks spawning tasks, failing, panicking, waiting for
+   cancellation or joining at arbitrary points).  [prog_ok p] only says that scope ids are task
+   ids of the table and that task 0 is the root of scope 0. *)
+From Coq Require Import ZArith List Bool Arith.
+From EC Require Import Lib.Obs Model.Scope Proofs.ScopeInv Proofs.ScopeProofs.
 Import ListNotations.
+Open Scope nat_scope.
 
+(* cancel_rc (strong count of Arc<CancelGuard>) = number of live main tasks of the scope;
+   terminate_rc (strong count of Arc<TerminateGuard>) = number of live background tasks + 1 while
+   a CancelGuard exists; hence `terminated` is signalled exactly when no task of the scope is live. *)
+Theorem C17_guards_count_tasks : forall p st s, prog_ok p = true -> reachable p st ->
+  cancel_rc (sget st s) = cnt (hm_at p st s) (length p) /\
+  terminate_rc (sget st s) = cnt (hb_at p st s) (length p) + b2n (0 <? cancel_rc (sget st s)) /\
+  (s_started (sget st s) = true ->
+     (s_terminated (sget st s) = true <->
+      forall t, scope_of p t = s -> holding (ph (tget st t)) = false)).
+Proof.
+  intros p st s Hok R. pose proof (inv1_reachable p st Hok R) as I.
+  destruct (i_cnt _ _ I s) as (A & B). split; [exact A|]. split; [exact B|].
+  intros Hs. apply terminated_iff_no_live_task; assumption.
+Qed.
+Print Assumptions C17_guards_count_tasks.
+
+(* Scope::bg_task's `upgrade().unwrap()` cannot panic: a live task keeps the TerminateGuard alive *)
+Theorem C17_spawn_guard_available : forall p st t, prog_ok p = true -> reachable p st ->
+  holding (ph (tget st t)) = true ->
+  1 <= terminate_rc (sget st (scope_of p t)) /\ s_terminated (sget st (scope_of p t)) = false.
+Proof.
+  intros p st t Hok R H. destruct (holder_rc p st t (inv1_reachable p st Hok R) H) as (A & B & _). auto.
+Qed.
+Print Assumptions C17_spawn_guard_available.
+
+(* run!() returns only when every task of the scope has finished (guard dropped) or was never
+   spawned, and after that no task of the scope ever takes a step again. *)
+Theorem C17_run_returns_after_all_tasks : forall p st r res st', prog_ok p = true -> reachable p st ->
+  exec p st (LRet r res) = Some st' ->
+  (forall t, scope_of p t = r -> ph (tget st t) = PNew \/ exists x, ph (tget st t) = PDone x) /\
+  (forall ls st'', run p st' ls = Some st'' -> forall t, scope_of p t = r -> tget st'' t = tget st t).
+Proof.
+  intros p st r res st' Hok R E. pose proof (inv1_reachable p st Hok R) as I. split.
+  - intros t Hs. pose proof (no_early_return_step p st r res st' I E t Hs) as H.
+    destruct (ph (tget st t)); cbn in H; try discriminate; eauto.
+  - intros ls st'' R' t Hs.
+    destruct (ret_enabled_inv _ _ _ _ _ E) as (_ & Ht & _).
+    destruct (terminated_stable p st _ st' r Hok I E Ht) as (T1 & F1).
+    destruct (terminated_forever p ls r Hok st' st'' (inv1_step p st _ st' Hok I E) T1 R') as (_ & F2).
+    rewrite (F2 t Hs). apply F1, Hs.
+Qed.
+Print Assumptions C17_run_returns_after_all_tasks.
+
+(* ... including the tasks of every scope nested in it, directly or transitively: when run!() of
+   scope s returns, every nested scope has already returned and none of its tasks is live. *)
+Theorem C17_nested_scopes_joined : forall p st s res st' r, prog_ok p = true -> reachable p st ->
+  exec p st (LRet s res) = Some st' -> nested_in p st r s ->
+  s_returned (sget st r) = true /\
+  forall t, scope_of p t = r -> ph (tget st t) = PNew \/ exists x, ph (tget st t) = PDone x.
+Proof.
+  intros p st s res st' r Hok R E N.
+  destruct (ret_enabled_inv _ _ _ _ _ E) as (_ & Ht & _).
+  destruct (nested_joined p st r s (inv1_reachable p st Hok R) (callers_reachable p st Hok R) N Ht) as (A & B).
+  split; [exact A|]. intros t Hs. specialize (B t Hs).
+  destruct (ph (tget st t)); cbn in B; try discriminate; eauto.
+Qed.
+Print Assumptions C17_nested_scopes_joined.
+
+(* run!() cannot return while any task of the scope is still live *)
+Theorem C17_no_early_return : forall p st r res t, prog_ok p = true -> reachable p st ->
+  scope_of p t = r -> holding (ph (tget st t)) = true -> exec p st (LRet r res) = None.
+Proof.
+  intros p st r res t Hok R Hs Hh. destruct (exec p st (LRet r res)) as [st'|] eqn:E; [|reflexivity].
+  rewrite (no_early_return_step p st r res st' (inv1_reachable p st Hok R) E t Hs) in Hh. discriminate.
+Qed.
+Print Assumptions C17_no_early_return.
+
+(* the value returned by run!(), in terms of the calls set_err(x1), set_err(x2), ... made for the
+   scope along the execution ([seterrs], in order): the root's Ok value iff no task reported a
+   failure; a panic iff some task panicked; otherwise the error of the FIRST set_err. *)
+Theorem C17_result_spec : forall p ls st r res st', prog_ok p = true ->
+  run p (init p) ls = Some st -> exec p st (LRet r res) = Some st' -> scope_of p r = r ->
+  match fold_left merge (seterrs p r ls) ENone with
+  | ENone => res = ROk /\ ph (tget st r) = PDone ROk /\ (forall x, In x (seterrs p r ls) -> x = ROk)
+  | EErr e => res = RErr e /\ exists pre post, seterrs p r ls = pre ++ RErr e :: post
+                 /\ (forall y, In y pre -> y = ROk) /\ ~ In RPanic (seterrs p r ls)
+  | EPanic => res = RPanic /\ In RPanic (seterrs p r ls)
+  end.
+Proof. exact result_spec. Qed.
+Print Assumptions C17_result_spec.
+
+(* a task that failed or panicked reports it (set_err) before it releases its guard, so before the
+   scope can terminate: the only step out of [PEnded r], r <> Ok, is LSetErr t r *)
+Theorem C17_failure_is_reported : forall p st l st' t r, exec p st l = Some st' ->
+  ph (tget st t) = PEnded r -> r <> ROk -> tget st' t = tget st t \/ l = LSetErr t r.
+Proof.
+  intros p st l st' t r E Hp Hr. destruct (exec_ptrans p st l st' E t) as [H|(_ & H)]; [auto|].
+  right. rewrite Hp in H. inversion H; subst; congruence.
+Qed.
+Print Assumptions C17_failure_is_reported.
+
+(* cancellation, 1: the step that records the first error cancels the scope's context *)
+Theorem C17_cancel_on_first_error : forall p st t r st', prog_ok p = true -> reachable p st ->
+  exec p st (LSetErr t r) = Some st' -> s_err (sget st (scope_of p t)) = ENone ->
+  s_cancelled (sget st' (scope_of p t)) = true /\ s_err (sget st' (scope_of p t)) = err_of r.
+Proof. intros p st t r st' Hok R. apply first_error_cancels; [exact Hok|apply inv1_reachable; assumption]. Qed.
+Print Assumptions C17_cancel_on_first_error.
+
+(* cancellation, 2: in every reachable state in which no main task of a started scope is live the
+   context is cancelled (so the step dropping the last CancelGuard cancels it) *)
+Theorem C17_cancel_when_main_tasks_done : forall p st s, prog_ok p = true -> reachable p st ->
+  s_started (sget st s) = true -> (forall t, scope_of p t = s -> hm (tget st t) = false) ->
+  s_cancelled (sget st s) = true.
+Proof. intros p st s Hok R. apply no_main_task_cancelled, inv1_reachable; assumption. Qed.
+Print Assumptions C17_cancel_when_main_tasks_done.
+
+(* cancellation, 3: when the parent context is cancelled (None = the caller's context) or the
+   deadline of a with_deadline context passed, at most one watcher step cancels the scope *)
+Theorem C17_cancel_from_caller : forall p st r, s_started (sget st r) = true ->
+  (ctx_cancelled st (s_parent (sget st r)) || (s_dl (sget st r) && ext st)) = true ->
+  exists ls st', length ls <= 1 /\ forallb is_prop ls = true /\ run p st ls = Some st'
+                 /\ s_cancelled (sget st' r) = true /\ same_links st st'.
+Proof. exact watcher_step. Qed.
+Print Assumptions C17_cancel_from_caller.
+
+(* cancellation, 4: it reaches every descendant context after finitely many watcher steps *)
+Theorem C17_cancel_reaches_descendants : forall p st r o, anc st r o -> ctx_cancelled st o = true ->
+  exists ls st', forallb is_prop ls = true /\ run p st ls = Some st'
+                 /\ s_cancelled (sget st' r) = true /\ same_links st st'.
+Proof. exact cancel_reaches_descendants. Qed.
+Print Assumptions C17_cancel_reaches_descendants.
+
+(* cancellation, 5: a cancelled context stays cancelled *)
+Theorem C17_cancel_is_permanent : forall p st l st' j, prog_ok p = true -> reachable p st ->
+  exec p st l = Some st' -> s_cancelled (sget st j) = true -> s_cancelled (sget st' j) = true.
+Proof. intros p st l st' j Hok R. apply cancelled_stable, inv1_reachable; assumption. Qed.
+Print Assumptions C17_cancel_is_permanent.
+
+(* tie: a log accepted by the replayer is the visible part of an execution of the model *)
+Theorem C17_trace_acceptance_sound : forall p win log st ls, replay p win log = Accept st ls ->
+  prog_ok p = true /\ run p (init p) (rev ls) = Some st /\ filter is_visible (rev ls) = log.
+Proof. exact replay_sound. Qed.
+Print Assumptions C17_trace_acceptance_sound.
+
+(* Non-vacuity: a background task fails while the root waits for cancellation. *)
 Example C17_nonvacuous :
   run_case ([ {| td_scope := 0; td_main := true; td_acts := [ASpawn 1; AAwaitCancel] |};
               {| td_scope := 0; td_main := false; td_acts := [AFail 7] |} ],
             [(0, 1)],
             [LSpawn 0 1; LEnd 1 (RErr 7); LObs 0; LEnd 0 ROk; LRet 0 (RErr 7)])
   = OL [OZ 1; OZ (-1); OL [OZ 1; OZ 7]; OZ 2]%Z.
+Proof. vm_compute. reflexivity. Qed.
+
+(* ... and the same program cannot return Ok, nor observe the cancellation before the failure *)
+Example C17_nonvacuous_reject :
+  run_case ([ {| td_scope := 0; td_main := true; td_acts := [ASpawn 1; AAwaitCancel] |};
+              {| td_scope := 0; td_main := false; td_acts := [AFail 7] |} ],
+            [],
+            [LSpawn 0 1; LObs 0; LEnd 1 (RErr 7); LEnd 0 ROk; LRet 0 (RErr 7)])
+  = OL [OZ 0; OZ 1; OL [OZ 3; OZ 0]; OZ 0]%Z.
 Proof. vm_compute. reflexivity. Qed.
